@@ -14,3 +14,7 @@ add("C10", "model_checking",
     "Transactions (1-2 bookings, all pairs of account types incl. equity, 7 amounts incl. negative/zero/many decimals) x 6 intervals x every window start<=end over a date alphabet and a 40/100-day run are expanded by the real transaction.Create; every generated transaction must balance, every non-accrual account must receive exactly what the original booked, the accrual account must net to zero, income/expense legs must be dated exactly at the reference period ends and other legs on the original date.",
     "Trusted: calendar reference (C11), hand-built syntax tree for the library entry. Amounts and windows outside the alphabet are not covered.",
     "bounded exhaustive input enumeration with conservation invariants and a calendar reference", "DESIGN.md 4 C10, A.9")
+add("C02", "model_checking",
+    "Every journal of up to 2 body transactions over the journal alphabet is run through the real `balance` command in-process for every window/interval/--last/--diff/--close combination over the date alphabet and for a product of mapping rules (level 0, suffix, several rules), account/commodity filters and remaps; the text report is parsed back into an account tree and every cell, total and Delta line is compared with an independent rational-arithmetic ledger.",
+    "Trusted: reference ledger (ref/ledger.go), table reader, in-process driver (validated against the plain binary on a subset), overlay rewrites. Regexes, amounts and journal lengths beyond the alphabet are outside the bound.",
+    "bounded exhaustive input x configuration enumeration against a reference model", "DESIGN.md 4 C02, A.3-A.6")
